@@ -261,6 +261,11 @@ func execStmt(h *Handle, idx int, st Stmt, cfg Config) (res StmtRes) {
 	if st.Mode == ModeBatch {
 		kind = "batch"
 	}
+	// a drain needs at most one poll per stored pair (plus a few): scale the cap with the store
+	pollCap := maxPolls
+	if n := len(h.core.snapshot()); 3*n+100 > pollCap {
+		pollCap = 3*n + 100
+	}
 	nErr := 0
 	for {
 		pr, end := poll(kind)
@@ -269,7 +274,7 @@ func execStmt(h *Handle, idx int, st Stmt, cfg Config) (res StmtRes) {
 		if pr.Err != "" && pr.Panic == "" && nErr < st.KeepGoing && !res.StepCap {
 			nErr++
 			res.Rows = append(res.Rows, []string{"!error"})
-			if len(res.Polls) < maxPolls {
+			if len(res.Polls) < pollCap {
 				continue
 			}
 		}
@@ -282,7 +287,7 @@ func execStmt(h *Handle, idx int, st Stmt, cfg Config) (res StmtRes) {
 		if end {
 			break
 		}
-		if len(res.Polls) >= maxPolls {
+		if len(res.Polls) >= pollCap {
 			res.StepCap = true
 			break
 		}
